@@ -1,6 +1,7 @@
 import HpxVerif.Lemmas.BitsLemmas
 import HpxVerif.Lemmas.UniqLemmas
 import HpxVerif.Lemmas.BmiLemmas
+import HpxVerif.Lemmas.SizeGen
 
 set_option autoImplicit false   -- an unknown identifier in a statement is an error, never a new variable
 
@@ -256,5 +257,34 @@ theorem zoc_bmi_correct (d i j : Nat) (hd : d ≤ 29) (hi : i < 2 ^ d) (hj : j <
       getZoc d = some c ∧ Bmi.ij2h c i j = Lut.ij2h c i j ∧
       Bmi.h2ij c (Bmi.ij2h c i j) = Lut.h2ij c (Lut.ij2h c i j) ∧
       Bmi.i02h c i = Lut.i02h c i ∧ Bmi.oj2h c j = Lut.oj2h c j := Hpx.zoc_bmi_correct d i j hd hi hj
+
+
+/-! ## constants from the source
+
+`Gen/SizeTables.lean` is produced on every run by interpreting the source text of `x_mask`, `y_mask`, `xy_mask`,
+`nside_unsafe`, `nside_square_unsafe`, `n_hash_unsafe` and of `Layer::new` (overflowing shifts / subtractions = panic). -/
+
+/-- the model's `x_mask`, `y_mask`, `xy_mask` are the source's, for every `delta_depth` 0..32 and any configuration
+    (`delta_depth = 0`: the empty mask, since the repair of finding F25) -/
+theorem masks_from_source (cfg : Cfg) :
+    (List.range 33).map (Topo.xMaskFn cfg) = Gen.Size.xMask ∧
+    (List.range 33).map (Topo.yMaskFn cfg) = Gen.Size.yMask ∧
+    (List.range 33).map (Topo.xyMaskFn cfg) = Gen.Size.xyMask := Hpx.SizeGen.masks_from_source cfg
+
+/-- every integer field of `Layer::new(depth)` (depth, nside, nside_minus_1, n_hash, twice_depth, d0h_mask, x_mask, y_mask,
+    xy_mask, nside_remainder_mask), depth 0..29: the model's values are the ones the source computes -/
+theorem layer_fields_from_source :
+    (List.range 30).map Hpx.SizeGen.modelLayerFields = Gen.Size.layerFields := Hpx.SizeGen.layer_fields_from_source
+
+/-- `time_half_nside` (the exponent increment of the scaling by `nside / 2`): `(depth − 1) << 52`, `−1 << 52` at depth 0 -/
+theorem time_half_nside_from_source :
+    (List.range 30).map (fun d => Hash.timeHalfNside d * 2 ^ 52) = Gen.Size.layerTimeHalfNside :=
+  Hpx.SizeGen.time_half_nside_from_source
+
+/-- `nside_unsafe`, `nside_square_unsafe`, `n_hash_unsafe`, depth 0..29 -/
+theorem sizes_from_source :
+    (List.range 30).map (fun d => some (Layer.nside d)) = Gen.Size.nside ∧
+    (List.range 30).map (fun d => some (4 ^ d)) = Gen.Size.nsideSquare ∧
+    (List.range 30).map (fun d => some (Layer.nHash d)) = Gen.Size.nHash := Hpx.SizeGen.sizes_from_source
 
 end Hpx.C18
